@@ -308,10 +308,10 @@ func raceQuery(cfg *SolveCfg, q *Query, id string) {
 			file := filepath.Join(cfg.WorkDir, id+"."+s.Name+".smt2")
 			os.WriteFile(file, []byte(script), 0o644)
 			t0 := time.Now()
-			// (twice the first-pass limit: a query that one back end decides near the limit on an idle machine must not
+			// (three times the first-pass limit: a query that one back end decides near the limit on an idle machine must not
 			// flip to "unknown" on a loaded one)
-			c2, cancel2 := context.WithTimeout(ctx, time.Duration(2*cfg.TimeoutMs+2000)*time.Millisecond)
-			ans, _, err := runSolver(c2, s, file, 2*cfg.TimeoutMs)
+			c2, cancel2 := context.WithTimeout(ctx, time.Duration(3*cfg.TimeoutMs+2000)*time.Millisecond)
+			ans, _, err := runSolver(c2, s, file, 3*cfg.TimeoutMs)
 			cancel2()
 			a := ans[q.ItemIdx]
 			ch <- outcome{s.Name, a, time.Since(t0).Seconds(), err, file}
